@@ -23,8 +23,8 @@ class Check(PropertyCheck):
     pid = "C11"
     props_module = "Properties.Properties_C11"
     extra_targets = ["Extract/ExtractSchedC.vo", "Extract/ExtractPool.vo"] + (list(getattr(schedx_part, "extra_targets", [])) if schedx_part else [])
-    gen_files = ["SchedCTab.v", "PoolTab.v"] + (list(getattr(schedx_part, "gen_files", [])) if schedx_part else [])
-    extra_props = (list(getattr(schedx_part, "extra_props_c11", [])) if schedx_part else []) + ["Properties.Properties_C11pool"]
+    gen_files = ["SchedCTab.v", "PoolTab.v", "ParseTab.v", "ScanTab.v", "DecTabs.v", "CrcTab.v", "Consts.v"] + (list(getattr(schedx_part, "gen_files", [])) if schedx_part else [])
+    extra_props = (list(getattr(schedx_part, "extra_props_c11", [])) if schedx_part else []) + ["Properties.Properties_C11pool", "Properties.Properties_C11labels"]
     trusted_base = [
         "Coq 8.16.1 kernel (coqc); no axioms (Print Assumptions: closed under the global context)",
         "translator lib/gen_schedc.py: guards can_*, TRANSM_THRESH, task_list order, pqueue_init capacities, "
